@@ -135,6 +135,8 @@ pub struct Opts {
     pub ignore: Vec<String>,
     /// Report the first disagreement of every (entry, kind of disagreement) instead of stopping at the first one.
     pub collect: bool,
+    /// Enumerate these input families only (all of them if empty).
+    pub only: Vec<String>,
 }
 
 pub static OPTS: OnceLock<Opts> = OnceLock::new();
@@ -293,6 +295,22 @@ fn codec<T: Decode + Encode + PartialEq>(name: &'static str, v2: bool, bytes: &[
     }
 }
 
+/// Equal, or the same bytes in another order: an update that embeds a sub-document carries
+/// its `Options` as an `Any` map of four keys, which every `HashMap` instance writes in its
+/// own order; any other difference between two encodings changes the multiset of bytes.
+fn same_encoding(a: &[u8], b: &[u8]) -> bool {
+    if a == b {
+        return true;
+    }
+    if a.len() != b.len() {
+        return false;
+    }
+    let (mut x, mut y) = (a.to_vec(), b.to_vec());
+    x.sort_unstable();
+    y.sort_unstable();
+    x == y
+}
+
 /// `Update: PartialEq` looks at block ids only; the encoding has to be a fixed point as well.
 fn update_fixpoint(u: &Update) -> Result<(), Mis> {
     at2("Update", "::encode_v1 of the decoded value");
@@ -302,7 +320,7 @@ fn update_fixpoint(u: &Update) -> Result<(), Mis> {
         Ok(w) => {
             at2("Update", "::encode_v1 of the value decoded again");
             let again = w.encode_v1();
-            if again != e1 || w != *u {
+            if !same_encoding(&again, &e1) || w != *u {
                 return Err(mis(
                     "Update::encode_v1 -> Update::decode_v1 -> Update::encode_v1".to_string(),
                     "v1",
@@ -320,7 +338,7 @@ fn update_fixpoint(u: &Update) -> Result<(), Mis> {
         Ok(w) => {
             at2("Update", "::encode_v1 of the value decoded again");
             let again = w.encode_v1();
-            if again != e1 || w != *u {
+            if !same_encoding(&again, &e1) || w != *u {
                 return Err(mis(
                     "Update::encode_v2 -> Update::decode_v2 -> Update::encode_v1".to_string(),
                     "v2",
@@ -1169,6 +1187,7 @@ pub fn run_in_child(e: &Entry, bytes: &[u8]) -> Result<String, Failure> {
     let mut child = Command::new(exe)
         .arg("run-one")
         .arg(e.name)
+        .env("RUST_BACKTRACE", "0")
         .stdin(Stdio::piped())
         .stdout(Stdio::piped())
         .stderr(Stdio::piped())
@@ -1450,6 +1469,8 @@ fn worker_unit(fi: usize, unit: usize, first: usize, verbose: bool) {
     let mut scratch: Vec<u8> = Vec::new();
     let mut cases = 0u64;
     let mut ignored = 0u64;
+    // collect mode: one line per (entry, kind of disagreement) and unit is enough
+    let mut told: Vec<String> = Vec::new();
     for (k, (i, ei)) in unit_cases(fam, unit).into_iter().enumerate() {
         if k < first {
             continue;
@@ -1470,6 +1491,8 @@ fn worker_unit(fi: usize, unit: usize, first: usize, verbose: bool) {
             CUR_START.store(0, Ordering::Release);
             match v {
                 Verdict::Pass(_) => None,
+                // the clock of a busy machine proves little: once more, in a process of its own
+                Verdict::Fail(f) if f.why.starts_with("took ") => run_in_child(e, bytes).err(),
                 Verdict::Fail(f) => Some(f),
                 Verdict::Hazard => {
                     if is_ignored(e.name, HAZARD) {
@@ -1489,6 +1512,13 @@ fn worker_unit(fi: usize, unit: usize, first: usize, verbose: bool) {
             if is_ignored(e.name, &f.why) {
                 ignored += 1;
                 continue;
+            }
+            if opts().collect {
+                let class = class_of(e.name, &f.why);
+                if told.contains(&class) {
+                    continue;
+                }
+                told.push(class);
             }
             let case = make_case(fam, i, e, bytes);
             println!("f {} {}", k, crate::ext::found_json(&case, &f));
@@ -1561,7 +1591,7 @@ impl Proc {
     fn spawn() -> Result<Proc, String> {
         let exe = std::env::current_exe().map_err(|x| x.to_string())?;
         let mut cmd = Command::new(exe);
-        cmd.arg("dec-worker");
+        cmd.arg("dec-worker").env("RUST_BACKTRACE", "0");
         for p in &opts().ignore {
             cmd.arg("--ignore").arg(p);
         }
@@ -1777,34 +1807,30 @@ fn drive(sh: &Shared) {
                     let e = &ENTRIES[ei];
                     let mut scratch = Vec::new();
                     let bytes = input_for(fam, i, e, &mut scratch).to_vec();
-                    let failure = if hang.is_some() {
-                        Failure {
-                            why: format!("took more than {} ms (no return; worker process stopped)", KILL_MS),
+                    // once more in a process of its own (a case the watchdog stopped
+                    // has 10 s there as well: the clock of a busy machine proves little)
+                    let failure = match run_in_child(e, &bytes) {
+                        Err(f) => Some(f),
+                        Ok(_) if hang.is_some() => None,
+                        Ok(text) => Some(Failure {
+                            why: format!(
+                                "process aborted: {} (worker process; the same case returns {} in a process of its own)",
+                                how, text
+                            ),
                             expected: J::str(EXPECTED),
-                            actual: J::obj(vec![("result", J::str("no return"))]),
+                            actual: J::Null,
                             api: e.name.to_string(),
-                        }
-                    } else {
-                        match run_in_child(e, &bytes) {
-                            Err(f) => f,
-                            Ok(text) => Failure {
-                                why: format!(
-                                    "process aborted: {} (worker process; the same case returns {} in a process of its own)",
-                                    how, text
-                                ),
-                                expected: J::str(EXPECTED),
-                                actual: J::Null,
-                                api: e.name.to_string(),
-                            },
-                        }
+                        }),
                     };
                     sh.cases.fetch_add((k + 1 - first) as u64, Ordering::Relaxed);
-                    if is_ignored(e.name, &failure.why) {
-                        IGNORED.fetch_add(1, Ordering::Relaxed);
-                    } else {
-                        sh.record(u, k, make_case(fam, i, e, &bytes), failure);
-                        if !opts().collect {
-                            break 'unit;
+                    if let Some(failure) = failure {
+                        if is_ignored(e.name, &failure.why) {
+                            IGNORED.fetch_add(1, Ordering::Relaxed);
+                        } else {
+                            sh.record(u, k, make_case(fam, i, e, &bytes), failure);
+                            if !opts().collect {
+                                break 'unit;
+                            }
                         }
                     }
                     first = k + 1;
@@ -1824,6 +1850,9 @@ fn drive(sh: &Shared) {
 pub fn search_decoders(r: &mut Runner) -> Result<(), XStop> {
     let mut units: Vec<(usize, usize)> = Vec::new();
     for (fi, fam) in FAMILIES.iter().enumerate() {
+        if !opts().only.is_empty() && !opts().only.iter().any(|n| n == fam.name) {
+            continue;
+        }
         for unit in 0..(fam.len() + UNIT - 1) / UNIT {
             units.push((fi, unit));
         }
@@ -1885,17 +1914,26 @@ pub fn cmd_inputs() -> i32 {
         let entries = ENTRIES.iter().filter(|e| applies_to(fam.applies, e)).count();
         let isolated = fam.data().isolated.iter().filter(|x| **x).count();
         println!(
-            "{:<22} inputs {:>8}  entries {:>2}  cases {:>9}  in child processes {:>5}  bytes {:>9}",
+            "{:<22} inputs {:>8}  entries {:>2}  cases {:>9}  in child processes {:>5}  bytes {:>9}  fnv {:016x}",
             fam.name,
             fam.len(),
             entries,
             fam.len() * entries,
             isolated * entries,
-            fam.data().data.len()
+            fam.data().data.len(),
+            fam.data().data.iter().fold(0xcbf29ce484222325u64, |h, b| (h ^ *b as u64).wrapping_mul(0x100000001b3))
         );
         total_inputs += fam.len();
         total_cases += fam.len() * entries;
     }
     println!("total inputs {} cases {}", total_inputs, total_cases);
+    println!("payloads of the mutation family:");
+    for (label, p) in valid_payloads() {
+        println!("  {:<24} {:>4} bytes", label, p.len());
+    }
+    println!("codecs:");
+    for f in crate::codecs::FAMILIES {
+        println!("  {:<14} values {:>6}", f, crate::codecs::count(f));
+    }
     0
 }
